@@ -3,23 +3,24 @@ import importlib
 
 # property -> list of (rule module, configs it needs in quick tier)
 PROPERTY_RULES = {
-    "C01": ["r_a10", "r_a9", "r_a8", "r_a2", "r_o3", "r_a12", "r_a13", "r_a4"],
-    "C02": ["r_a6", "r_a4", "r_a8", "r_a2", "r_o3", "r_e1", "r_b1", "r_a13", "r_a14"],
+    "C01": ["r_a10", "r_a9", "r_a8", "r_a2", "r_o3", "r_a12", "r_a13", "r_a4", "r_a16"],
+    "C02": ["r_a6", "r_a4", "r_a8", "r_a2", "r_o3", "r_e1", "r_b1", "r_a13", "r_a14", "r_a16"],
     "C03": ["r_a2", "r_a3", "r_a8", "r_a14"],
     "C04": ["r_a8", "r_e1", "r_a6", "r_a2", "r_b1", "r_o3"],
     "C05": ["r_b1", "r_o3", "r_a2", "r_a12"],
     "C06": ["r_b1", "r_o3", "r_a2"],
     "C07": ["r_a12", "r_a13", "r_a2", "r_a9", "r_a11"],
-    "C08": ["r_a11", "r_o3", "r_a2", "r_a4", "r_a8", "r_a12", "r_e2"],
+    "C08": ["r_a11", "r_o3", "r_a2", "r_a4", "r_a8", "r_a12", "r_e2", "r_a15"],
     "C09": ["r_c4", "r_c3", "r_c1", "r_c5", "r_c7"],
     "C10": ["r_c2", "r_c1", "r_e1", "r_c5", "r_c7"],
-    "C11": ["r_c2", "r_c1", "r_a6", "r_c5", "r_c4", "r_e1", "r_a8", "r_a9"],
+    "C11": ["r_c2", "r_c1", "r_a6", "r_c5", "r_c4", "r_e1", "r_a8", "r_a9", "r_a16"],
     "C12": ["r_c4", "r_e1"],
-    "C13": ["r_e4", "r_a6", "r_c3", "r_e1", "r_a13"],
+    "C13": ["r_e4", "r_a6", "r_c3", "r_e1", "r_a13", "r_a16"],
     "C14": ["r_d1"],
     "C15": ["r_d2", "r_d3"],
     "C16": ["r_e1", "r_e2"],
     "C17": ["r_c6", "r_a3", "r_c5", "r_a14"],
+    "C18": ["r_a15"],
 }
 
 LEVEL = {"C14": "proof"}
@@ -43,16 +44,22 @@ CLAUSES = {
            "edges; clone returns the (ptr, len) it was given; slice/slice_ref re-base by exactly the range start; empty split_off/split_to "
            "results are built at self.ptr + at / self.ptr",
     "C08": "is_unique slot functions return constant false exactly for families whose into_mut can never hand the memory over, `count == 1` (true on the "
-           "unshared branch) otherwise; try_into_mut is exactly is_unique ? Ok(into) : Err(self); every take-over re-validates uniqueness with Acquire; the reclaim helper's contract (A8), no copy on the unique conversion path (A12), parity siblings (E2)",
+           "unshared branch) otherwise; try_into_mut is exactly is_unique ? Ok(into) : Err(self); every take-over re-validates uniqueness with Acquire; the reclaim helper's contract (A8), no copy on the unique conversion path (A12), parity siblings (E2); "
+           "for an empty BytesMut that is alone on its allocation every path of the reservation helper that returns false or reaches an allocation is excluded when "
+           "n <= allocation size (A15, linear-inequality domain)",
+    "C18": "ONLY the statement's last sentence: a reserve(n) on an empty handle that is alone on a buffer that is large enough never allocates (and try_reclaim(n) is true) - "
+           "every control-flow path of the reservation helper that reaches Vec::reserve / Vec::with_capacity or returns false is excluded under len == 0, uniqueness and "
+           "n <= allocation size, in both representations (KIND_VEC: cap + vec position; KIND_ARC: capacity of the shared Vec). The quantitative part (peak heap and allocation "
+           "counts over 10^3..10^6-round histories) is NOT decided",
     "C03": "on every CFG path of every vtable/drop/conversion/duplication function the handle's reference is disposed exactly once (minted exactly once "
            "for clone); initial counts match the number of handles; consuming slots are called only on ManuallyDrop'd handles; from_owner boxes before "
            "as_ref, calls it once, unwinds into Drop; handles are merged only when they share one control block; no user code in ManuallyDrop windows",
     "C02": "structural preconditions of the unsafe code: every safe caller establishes the stated precondition of each unsafe helper in release code; "
            "raw slices have an approved (ptr,len) shape; raw writes are bounded by the real destination length; no wrap-around feeds an extent; "
-           "refcount overflow aborts",
+           "refcount overflow aborts; the length of a BytesMut / slice cursor grows only over bytes written just before (every safe set_len / advance_mut is a shrink or is dominated by a covering write at the first unexposed byte, A16)",
     "C13": "in every safe &mut-self method with integer/range/slice arguments no state write can reach an argument-dependent panic (panic strictly before "
            "mutation); argument checks dominate the unchecked operations they protect in release builds; overflowing requests cannot wrap silently; "
-           "Bytes::slice produces every result (also the empty one) only after both range checks",
+           "Bytes::slice produces every result (also the empty one) only after both range checks; an over-long truncate / resize argument cannot make unwritten bytes visible (A16)",
     "C09": "Chain touches its second half only on paths where the first is exhausted or fully accounted for (incl. chunks_vectored); "
            "Take truncates by min(inner, limit) and pairs every inner advance with limit -= same operand; the five leaf Bufs, the inherited defaults "
            "and IntoIter: remaining()/chunk() cut from one value, advance moves the cursor by exactly its argument, VecDeque lists front before back, "
@@ -69,7 +76,7 @@ CLAUSES = {
            "error fields and cursor movement use the value width; no profile-dependent arithmetic on caller-controlled integers in the decoders; "
            "the chunk-gathering slow path loops until the destination is full; the leaf cursors' remaining()/chunk() agree",
     "C11": "every typed putter uses the conversion/type/byte order/width its name promises (be = tail, le = head slicing of the 8-byte encoding); copy loops "
-           "move min(real lengths) and stop only on exhaustion; BytesMut's growth path moves the bytes in the right direction before re-basing",
+           "move min(real lengths) and stop only on exhaustion; BytesMut's growth path moves the bytes in the right direction before re-basing; advance_mut after a specialised write exposes exactly bytes that a dominating write at the write cursor covered (A16)",
     "C16": "no profile-dependent arithmetic (overflow/shift asserts, explicit wrapping ops) on caller-controlled integers anywhere in the crate; the "
            "even/odd promotable vtables are slot-wise isomorphic modulo unmasking, the parity dispatch is consistent and vtable identity tests cover both parities; fact tables agree across the "
            "feature/atomic configurations (thorough tier)",
@@ -89,7 +96,10 @@ TECHNIQUE = {
     "C01": "signature/impl-table scan of Bytes (effect property) + dominance rules for byte moves and re-basing over MIR provenance trees + token accounting",
     "C04": "per-write justification rules over MIR provenance trees and dominating guards (A8), path enumeration of the reservation helper, arithmetic taint (E1)",
     "C07": "effect reachability over the crate call graph with vtable slots expanded to all bound functions; exemptions verified by dominating guards",
-    "C08": "return-value flow of the is_unique slot functions cross-checked against the take-over paths of into_mut (path summaries) + dominating-guard analysis",
+    "C08": "return-value flow of the is_unique slot functions cross-checked against the take-over paths of into_mut (path summaries) + dominating-guard analysis; "
+           "abstract interpretation of the reservation helper in a linear-inequality domain (own Fourier-Motzkin emptiness test), one state per CFG path",
+    "C18": "abstract interpretation of the reservation helper's MIR in a linear-inequality domain (own Fourier-Motzkin emptiness test, one state per CFG path) under the "
+           "hypotheses empty + sole owner + request <= allocation size: all paths to allocation calls / `return false` must be empty",
     "C03": "path-sensitive linear-token accounting over MIR (acyclic path enumeration with constant folding and tag-feasibility pruning, interprocedural event summaries)",
     "C02": "precondition extraction from debug_assert!s of unsafe helpers + dominating-guard implication at every safe call site; shape rules for raw slices/writes; arithmetic taint",
     "C13": "reachability from state-write sites to argument-dependent panic sites over MIR CFGs with interprocedural summaries; dominating-guard implication; arithmetic taint",
@@ -106,11 +116,12 @@ LEVEL_NOTE["C17"] = ("trusted: slices returned by safe user code have their real
                       "leak-freedom when user code panics at arbitrary points (unwinding paths are analysed for from_owner only).")
 LEVEL_NOTE["C15"] = ("trusted: core::fmt's rendering of {} for char and {:02x}/{:02X} for u8 (modelled, not executed); escapes are self-delimiting per the Rust "
                       "reference grammar, so per-byte correctness implies whole-string correctness. NOT decided: round trips through arbitrary serde (de)serializers.")
-LEVEL_NOTE["C08"] = ("trusted: rustc, std atomics. NOT decided: 'an empty sole owner can always reclaim / reserve does not allocate' — an arithmetic "
-                      "implication over reserve_inner's branch conditions that needs a solver (DESIGN.md §6 C08).")
-NOT_APPLICABLE = {
-    "C18": "quantitative heap/allocation-count bound over 10^3..10^6-round histories; no structural clause whose violation implies the bound fails (DESIGN.md §6 C18)",
-}
+LEVEL_NOTE["C08"] = ("trusted: rustc, std atomics; arithmetic on the analysed paths is exact (overflow-checked on the path or vouched for by E1); the allocation size of the "
+                      "inline-Vec form is cap + vec position (the invariant A8 checks at every pointer move). NOT decided: truthfulness of is_unique over whole histories.")
+LEVEL_NOTE["C18"] = ("Decides one sentence of the statement ('a reserve on an empty handle that is alone on a buffer that is large enough never allocates'), which is a necessary "
+                      "condition of the property. NOT decided and not claimed: the bound on peak heap and on the number of allocations over long histories - it depends on run-time "
+                      "sizes (amortisation test off >= len, doubling, original_capacity_repr) that no sound static argument in reach can bound (DESIGN.md §6 C18, §20).")
+NOT_APPLICABLE = {}
 
 TRUSTED = [
     "rustc type checker, trait resolution and MIR construction (nightly 1.97)",
